@@ -551,6 +551,13 @@ class Frame:
             fr = fr.parent
         return list(reversed(c))
 
+    def qchain(self):
+        c, fr = set(), self
+        while fr is not None:
+            c.add(fr.f.qn)
+            fr = fr.parent
+        return c
+
 
 class Obligation:
     __slots__ = ("kind", "func", "line", "text", "ok", "detail", "root", "chain", "exact")
@@ -1100,7 +1107,7 @@ class LinAnalysis:
             v = self.ev(e["e"], st, fr)
             if ck == "BitCast":
                 v = self.cast_pointer(v, e, st, fr)
-            if ck in ("NoOp", "BitCast", "FunctionToPointerDecay", "CPointerToObjCPointerCast", "UncheckedDerivedToBase", "DerivedToBase", "ConstructorConversion", "UserDefinedConversion"):
+            if ck in ("NoOp", "BitCast", "FunctionToPointerDecay", "CPointerToObjCPointerCast", "UncheckedDerivedToBase", "DerivedToBase", "BaseToDerived", "ConstructorConversion", "UserDefinedConversion"):
                 return v
             if ck in ("IntegralCast", "IntegralToBoolean", "BooleanToSignedIntegral"):
                 if ck == "IntegralToBoolean":
@@ -1840,7 +1847,7 @@ class LinAnalysis:
         if g is not None and (g.name in self.modular or g.qn in self.modular or (self.policy is not None and self.policy(fr, g) == "modular")):
             return self.modular_call(g, e, args, st, fr)
         if g is not None and not g.nocfg and fr.depth < self.max_depth and len(g.blocks) <= 200 and (self.inline_ok is None or self.inline_ok(g)) \
-                and g.name not in fr.chain():
+                and g.qn not in fr.qchain():
             this = None
             if e.get("mcall") and e.get("obj") is not None:
                 this = self.ev(e["obj"], st, fr)
